@@ -141,6 +141,61 @@ def world():
     return _world
 
 
+def frame_goal(a, b):
+    """`b` (value of a parameter at a return) equals `a` (its value on entry); None if the shapes cannot be compared
+    (the parameter was rebound to something else: not a mutation of the caller's object)."""
+    from .engine import str_eq
+    if a is b:
+        return z3.BoolVal(True)
+    if isinstance(a, Opt) and isinstance(b, Opt):
+        inner = frame_goal(a.val, b.val)
+        return None if inner is None else z3.And(a.none == b.none, z3.Implies(z3.Not(a.none), inner))
+    if isinstance(a, Opt) and not isinstance(b, Opt) and b is not None:
+        inner = frame_goal(a.val, b)      # narrowed by a None test
+        return None if inner is None else z3.Implies(z3.Not(a.none), inner)
+    if isinstance(a, ObjV) and isinstance(b, ObjV) and a.cls == b.cls:
+        if "__id__" in a.fields and "__id__" in b.fields and a.fields["__id__"] is not b.fields["__id__"]:
+            return None                   # a different object was bound to the name
+        cs = []
+        for k_ in a.fields:
+            if k_ not in b.fields:
+                return None
+            g = frame_goal(a.fields[k_], b.fields[k_])
+            if g is None:
+                return None
+            cs.append(g)
+        return z3.And(*cs) if cs else z3.BoolVal(True)
+    if isinstance(a, StrV) and isinstance(b, StrV):
+        return str_eq(a, b)
+    if isinstance(a, SeqV) and isinstance(b, SeqV):
+        if a.arr is b.arr or a.arr.eq(b.arr):
+            return a.n == b.n
+        k = z3.Int("k!frame")
+        return z3.And(a.n == b.n, z3.ForAll([k], z3.Implies(z3.And(0 <= k, k < a.n), a.arr[k] == b.arr[k])))
+    if isinstance(a, MapV) and isinstance(b, MapV):
+        return a.arr == b.arr
+    if isinstance(a, DictIntV) and isinstance(b, DictIntV):
+        return z3.And(a.has == b.has, a.val == b.val)
+    if isinstance(a, (ListV, TupV)) and isinstance(b, (ListV, TupV)) and len(a.items) == len(b.items):
+        cs = []
+        for x, y in zip(a.items, b.items):
+            if isinstance(a, ListV):
+                (gx, x), (gy, y) = x, (y if isinstance(b, ListV) else (z3.BoolVal(True), y))
+                cs.append(gx == gy)
+            g = frame_goal(x, y)
+            if g is None:
+                return None
+            cs.append(g)
+        return z3.And(*cs) if cs else z3.BoolVal(True)
+    if isinstance(a, PyConst) and isinstance(b, PyConst):
+        return z3.BoolVal(a.v == b.v)
+    if is_z3(a) and is_z3(b) and a.sort() == b.sort():
+        return a == b
+    if a is None and b is None:
+        return z3.BoolVal(True)
+    return None
+
+
 def verify_function(c, mutate=None, canary=False):
     """Generate the obligations of one contract.  `mutate` rewrites the AST of the extracted
     function (mutation self-test); `canary` adds `ensures False` on every return."""
@@ -263,6 +318,22 @@ def verify_function(c, mutate=None, canary=False):
                 if when is not None:
                     g = z3.Not(boolify(X.ev(when, cx.entry, True)))
                     cx.oblige(f"raises.{exc}.not_on_return", "raises", rst, g)
+            # frame: an object passed in and not listed under `modifies` is the same afterwards
+            for p_ in c.params:
+                if p_ in c.modifies or p_ not in cx.entry.env or p_ not in rst.env:
+                    continue
+                old_v, new_v = cx.entry.env[p_], rst.env[p_]
+                for m_ in c.modifies:
+                    # `param.field` under modifies: that field is exempt, the rest of the object is framed
+                    if m_.startswith(p_ + ".") and isinstance(old_v, ObjV) and isinstance(new_v, ObjV):
+                        f_ = m_.split(".", 1)[1]
+                        if f_ in new_v.fields:
+                            old_v = old_v.with_field(f_, new_v.fields[f_])
+                if not isinstance(old_v.val if isinstance(old_v, Opt) else old_v, (ObjV, SeqV, ListV, MapV, DictIntV)):
+                    continue
+                fg = frame_goal(old_v, new_v)
+                if fg is not None:
+                    cx.oblige(f"frame.{p_}", "frame", rst, fg, getattr(fnode, "lineno", 0))
             if canary:
                 cx.oblige("canary.false_at_return", "canary", rst, z3.BoolVal(False))
             nret += 1
